@@ -525,7 +525,8 @@ func (x *Engine) divCheck(fr *Frame, st *State, d, zero, pos string, isFloat boo
 	if isFloat {
 		// a float division by zero does not panic; it yields NaN/Inf, which the real-number model cannot represent:
 		// the divisor must be shown non-zero.
-		x.oblige(st, "fdiv", pos, fmt.Sprintf("(not (= %s 0.0))", d), "float divisor non-zero", pos)
+		x.ordinals["fdiv"]++
+		x.oblige(st, "fdiv", fmt.Sprint(x.ordinals["fdiv"]), fmt.Sprintf("(not (= %s 0.0))", d), "float divisor non-zero at "+pos, pos)
 		return
 	}
 	x.mayPanic(fr, st, fmt.Sprintf("(= %s %s)", d, zero), "div0@"+pos)
@@ -553,6 +554,9 @@ func (x *Engine) convert(fr *Frame, st *State, v Val, from, to types.Type) Val {
 	case isFloat(from) && isInteger(to):
 		x.abstracted("float→int conversion assumed in range")
 		r.T = x.name("cv", "Int", fmt.Sprintf("(ite (>= %s 0.0) (to_int %s) (- (to_int (- %s))))", v.T, v.T, v.T))
+		if lo, hi, ok := intRange(to); ok {
+			x.assume(st, fmt.Sprintf("(and (<= %s %s) (<= %s %s))", lo, r.T, r.T, hi))
+		}
 		return r
 	case isFloat(from) && isFloat(to):
 		return r
